@@ -170,6 +170,12 @@ func VerifCacheConcurrent() {
 	a := pool[[]int{2, 10}[verifChoice("a", 2)]]
 	b := pool[[]int{2, 10, 0}[verifChoice("b", 3)]]
 	ca, cb := env.ctx(a), env.ctx(b)
+	// on a fresh cache, or on one that holds an entry of an earlier request whose time to live may have
+	// passed (the clock is symbolic): both concurrent calls then clean the cache
+	if verifChoice("warm", 2) == 1 {
+		cp.Plan(env.ctx(pool[[]int{2, 0}[verifChoice("w", 2)]]))
+		verifReach("concurrent plans on a used cache")
+	}
 	done := make(chan *QueryPlan)
 	go func() {
 		p, _ := cp.Plan(ca)
